@@ -12,7 +12,7 @@ def run(ctx):
     binp = vlib.build_harness(ctx, "vmharness")
     ctx.assumptions += ["whether operands run at all when a call is rejected for its argument count is left open (only 'never twice' is asserted there)",
                         "go statements are checked for evaluation order under C16"]
-    fams = [("c07-forms", progs.fam_c07()), ("c07-rand", progs.rand_programs(ctx.seed + 21, 300 if ctx.quick() else 5000))]
+    fams = [("c07-forms", progs.fam_c07()), ("c07-rand", progs.rand_programs(ctx.seed + 21, 300 if ctx.quick() else 5000)), ("c07-rand2", progs.rand2_programs(ctx.seed + 121, 400 if ctx.quick() else 6000))]
     for tag, fam in fams:
         corecheck.run_family(ctx, binp, fam, tag)
     return vlib.finish(ctx, RULE, exhaustive=True)
